@@ -306,7 +306,7 @@ fn gen_background(rng: &mut Rng, wildcard_mass: bool) -> Bg {
 
 const KINDS: [&str; 16] = [
     "rand", "quant", "counts", "wfin", "rand", "quant", "counts", "const", "narrow", "wide", "large", "wmass",
-    "counts", "protein", "huge", "special",
+    "roundup", "protein", "huge", "special",
 ];
 
 fn gen_matrix(rng: &mut Rng, kind: &str, m: usize, bg: &Bg) -> Vec<[f32; K]> {
@@ -428,6 +428,57 @@ fn gen_matrix(rng: &mut Rng, kind: &str, m: usize, bg: &Bg) -> Vec<[f32; K]> {
             rows[0][0] = (-0.5 * span) as f32;
             rows[m - 1][1] = (0.5 * span) as f32;
         }
+        "roundup" => {
+            // Integer offset o and range l with 1000 / l integral, so that scale = 1000 / l exactly.  The best
+            // cell of every row but the last is placed just above a half step: (x - o) * scale = n + 0.5 + tiny
+            // (computed with the code's own f64 expression), so its discretisation rounds UP; the sum of the
+            // rounded row maxima then exceeds the real-valued running maximum by 0.5 per row (a convolution
+            // that bounds its inner loop by the real-valued maximum skips the top cell from the 6th row on).
+            let l = *rng.pick(&[2.0f64, 4.0, 5.0, 8.0, 10.0, 20.0]);
+            let o = *rng.pick(&[0.0f64, -3.0, 2.0, -12.0]);
+            let scale = (1000.0 / l).floor();
+            for i in 0..m {
+                let mut r = [NINF; K];
+                let best_col = rng.below(4) as usize;
+                let best: f32 = if i == m - 1 {
+                    (o + l) as f32
+                } else {
+                    let n = (0.3 * l * scale) as u64 + rng.below((0.65 * l * scale) as u64);
+                    let mut x = (o + (n as f64 + 0.5) / scale) as f32;
+                    // nudge to the first f32 whose scaled value rounds up to n + 1
+                    for _ in 0..64 {
+                        let y = (x as f64 - o) * scale;
+                        if y.round() >= n as f64 + 1.0 {
+                            break;
+                        }
+                        x = next_up32(x);
+                    }
+                    for _ in 0..64 {
+                        let xd = next_down32(x);
+                        if ((xd as f64 - o) * scale).round() >= n as f64 + 1.0 {
+                            x = xd;
+                        } else {
+                            break;
+                        }
+                    }
+                    x
+                };
+                for (j, c) in r.iter_mut().take(4).enumerate() {
+                    *c = if j == best_col {
+                        best
+                    } else {
+                        // below the best cell, on a coarse grid (ties between rows, exact steps)
+                        let span = (best as f64 - o).max(0.0);
+                        (o + (rng.below(17) as f64 / 16.0) * span * 0.9) as f32
+                    };
+                }
+                rows.push(r);
+            }
+            // the global minimum is exactly o (offset = o)
+            let c0 = (1 + rng.below(3)) as usize;
+            let j0 = (0..4).find(|&j| rows[0][j] != rows[0].iter().take(4).cloned().fold(f32::NEG_INFINITY, f32::max)).unwrap_or(c0);
+            rows[0][j0] = o as f32;
+        }
         "huge" => {
             let mag = *rng.pick(&[3.0e8f32, 5.0e9, 1.0e19, 1.0e30, 3.0e38]);
             for _ in 0..m {
@@ -530,7 +581,13 @@ fn gen_case(rng: &mut Rng, id: usize, tier: &str) -> String {
     let cap = if wmass { 6 } else { 8 };
     // quick tier: widths 9..12 (the bit-exact replay of a width-16 table alone takes ~10 s)
     let wide_span = if tier == "thorough" { 8 } else { 4 };
-    let m = if kind == "large" { 9 + rng.below(wide_span) as usize } else { gen_m(rng, cap) };
+    let m = if kind == "large" {
+        9 + rng.below(wide_span) as usize
+    } else if kind == "roundup" {
+        *rng.pick(&[6usize, 6, 7, 7, 8])
+    } else {
+        gen_m(rng, cap)
+    };
     // `large`: too wide for the exact enumeration (structural checks and bit-exact replay only)
     let mkind = if kind == "large" { *rng.pick(&["rand", "quant", "counts"]) } else { kind };
     let rows5 = gen_matrix(rng, mkind, m, &bg);
